@@ -38,6 +38,9 @@ for d in sorted(glob.glob(os.path.join(seed_dir, 'C*'))):
         rc0, out0 = sh([PY, demo], cwd=d, env=env_repo, timeout=300)
         rec['demo_unchanged'] = rc0
         rca, outa = sh(['git', 'apply', patch], cwd=repo)
+        if rca != 0:      # the tree moved on (later fix: commits): fall back to a 3-way merge of the seeded change
+            rca, outa = sh(['git', 'apply', '-3', patch], cwd=repo)
+            rec['applied_3way'] = rca == 0
         if rca != 0:
             rec['error'] = 'patch does not apply: ' + outa[-300:]
             results.append(rec); clean(); continue
